@@ -50,7 +50,7 @@ def specOf (cfg : Cfg) (vk : Rk × Nat) : Nat :=
   let a := v.r1 + 2
   let b := v.r2 + 2
   posOfCat cfg v.cat * 16^5 +
-    (if v.cat = cHighCard then a * 16^4 + kd 13 k 4
+    (if v.cat = cHighCard ∨ v.cat = cFlush then a * 16^4 + kd 13 k 4
      else if v.cat = cOnePair then a * 16^4 + a * 16^3 + kd 13 k 3
      else if v.cat = cTwoPair then a * 16^4 + a * 16^3 + b * 16^2 + b * 16 + kd 13 k 1
      else if v.cat = cThreeOAK then a * 16^4 + a * 16^3 + a * 16^2 + kd 13 k 2
@@ -58,29 +58,28 @@ def specOf (cfg : Cfg) (vk : Rk × Nat) : Nat :=
      else if v.cat = cFourOAK then a * 16^4 + a * 16^3 + a * 16^2 + a * 16 + kd 13 k 1
      else a * 16^4)
 
-/-- what the engine keeps of a value: for a (non-straight) flush only the top card -/
-def coarse (cfg : Cfg) (v : Nat) : Nat :=
-  if v / 16^5 = Cat.flush.pos (Cfg.isShort cfg) then v / 16^4 * 16^4 else v
-
 /-- the evaluator on a class with a flush depends on the flush rank set only -/
 def evalF (cfg : Cfg) (F : Nat) : Rk × Nat := evalA cfg ⟨0, 0, some F⟩
 
-/-- well-formed result: fields are ranks, the kicker mask has exactly `n_kickers` ranks -/
+/-- number of kicker ranks a `Strength` of the category carries -/
+def nKick (cat : Nat) : Nat :=
+  if RP.Gen.C01.flushKickerCats.contains cat then RP.Gen.C01.flushKickers else RP.Gen.nKickers.getD cat 0
+
+/-- well-formed result: fields are ranks, the kicker mask has exactly `nKick` ranks -/
 def wfRes (vk : Rk × Nat) : Bool :=
-  vk.1.cat < 9 && vk.1.r1 < 13 && vk.1.r2 < 13 && vk.2 < 2^13 && popW 13 vk.2 == RP.Gen.nKickers.getD vk.1.cat 0
+  vk.1.cat < 9 && vk.1.r1 < 13 && vk.1.r2 < 13 && vk.2 < 2^13 && popW 13 vk.2 == nKick vk.1.cat
     && (vk.1.cat == cTwoPair || vk.1.cat == cFullHouse || vk.1.r2 == 0)
 
 /-- one row of the no-flush table -/
 def rowN (cfg : Cfg) (cv : Nat) : Bool :=
   let r := evalA cfg (clsN cv)
   (evalA? cfg (clsN cv)).isSome && specOf cfg r == specN cfg cv && wfRes r
-    && coarse cfg (specN cfg cv) == specN cfg cv
     && (popW 13 (ranksOfW 13 cv) < 5 || specN cfg cv < 5 * 16^5)
 
 /-- one row of the flush table -/
 def rowF (cfg : Cfg) (F : Nat) : Bool :=
   let r := evalF cfg F
-  (evalA? cfg ⟨0, 0, some F⟩).isSome && specOf cfg r == coarse cfg (specF cfg F) && wfRes r && 5 * 16^5 ≤ specF cfg F
+  (evalA? cfg ⟨0, 0, some F⟩).isSome && specOf cfg r == specF cfg F && wfRes r && 5 * 16^5 ≤ specF cfg F
 
 /-- `k` holds for every count vector of `w` ranks (digits ≤ 4) whose digit sum `s` satisfies
     `s ≤ rem` and `rem - s ≤ 2` (with `rem = 7`: 5 ≤ s ≤ 7) -/
